@@ -803,7 +803,7 @@ class DriverLubaRs232(DriverSerialBase):
                 # Decode the command, for logging and debugging
                 try:
                     dali_command = command.Command.from_frame(
-                        frame.Frame(bits=8 * len(tx_dali), data=tx_dali),
+                        frame.ForwardFrame(bits=8 * len(tx_dali), data=tx_dali),
                         devicetype=self._prev_tx_enable_dt,
                         dev_inst_map=self._dev_inst_map,
                     )
@@ -862,7 +862,7 @@ class DriverLubaRs232(DriverSerialBase):
                 else:
                     # A 16 or 24-bit frame is an intercepted DALI command,
                     # it can be deciphered into a Command object
-                    dali_frame = frame.Frame(
+                    dali_frame = frame.ForwardFrame(
                         bits=8 * len(rx_dali), data=rx_dali
                     )
                     try:
@@ -1554,7 +1554,7 @@ class DriverSCIRS232(DriverSerialBase):
             else:
                 # A 16 or 24-bit frame is an intercepted DALI command,
                 # it can be deciphered into a Command object
-                dali_frame = frame.Frame(
+                dali_frame = frame.ForwardFrame(
                     bits=8 * len(received_data), data=received_data
                 )
                 try:
